@@ -70,6 +70,8 @@ def _is_incr_of(st, text):
             for a, b in ((v.left, v.right), (v.right, v.left)):
                 c = const_value(b)
                 if isinstance(c, int) and not isinstance(a, ast.Constant):
+                    if ekey(a) == text:
+                        return c          # c = c + k  is the same as  c += k
                     return ("seat", c, a)
         if isinstance(v, ast.Name):
             return "reseat"
